@@ -1,7 +1,105 @@
 (* C18 - tree node navigation is a consistent algebra.  Statements only; proofs in Proofs/. *)
-From BaoV Require Import Model.Node Spec.NodeSpec Proofs.NodeLevel.
+From BaoV Require Import Model.Node Spec.NodeSpec Proofs.NodeLevel Proofs.NodeBits Proofs.NodeAlgebra Proofs.NodePost Proofs.NodeRestricted.
 
 (* level = number of trailing ones is the exponent in  x + 1 = (2k+1) * 2^level  *)
 Theorem C18_level_spec : forall x : N, x + 1 = (2 * sp_index x + 1) * 2 ^ level x.
 Proof. exact level_decomp. Qed.
 Print Assumptions C18_level_spec.
+
+Theorem C18_children : forall x, x < 2 ^ 62 -> 0 < level x ->
+  left_child x = Some (sp_left x) /\ right_child x = Some (sp_right x) /\
+  parent (sp_left x) = Some x /\ parent (sp_right x) = Some x /\
+  level (sp_left x) = level x - 1 /\ level (sp_right x) = level x - 1.
+Proof. exact children_spec. Qed.
+Print Assumptions C18_children.
+
+Theorem C18_leaf_no_children : forall x, level x = 0 ->
+  left_child x = None /\ right_child x = None /\ is_leaf x = true.
+Proof. exact leaf_no_children. Qed.
+Print Assumptions C18_leaf_no_children.
+
+Theorem C18_is_leaf : forall x, is_leaf x = (level x =? 0).
+Proof. exact is_leaf_level. Qed.
+Print Assumptions C18_is_leaf.
+
+Theorem C18_parent_spec : forall x, x < 2 ^ 62 ->
+  parent x = Some (sp_parent x) /\ level (sp_parent x) = level x + 1 /\
+  (sp_left (sp_parent x) = x \/ sp_right (sp_parent x) = x).
+Proof. exact parent_full_spec. Qed.
+Print Assumptions C18_parent_spec.
+
+Theorem C18_chunk_range : forall x, x < 2 ^ 62 -> chunk_range x = (sp_chunk_start x, sp_chunk_end x).
+Proof. exact c18_chunk_range. Qed.
+Print Assumptions C18_chunk_range.
+
+Theorem C18_chunk_range_split : forall x, x < 2 ^ 62 -> 0 < level x ->
+  fst (chunk_range (sp_left x)) = fst (chunk_range x) /\
+  snd (chunk_range (sp_left x)) = mid x /\
+  fst (chunk_range (sp_right x)) = mid x /\
+  snd (chunk_range (sp_right x)) = snd (chunk_range x).
+Proof. exact c18_chunk_range_split. Qed.
+Print Assumptions C18_chunk_range_split.
+
+Theorem C18_node_range : forall x, x < 2 ^ 62 ->
+  node_range x = (sp_node_start x, sp_node_start x + 2 ^ (level x + 1) - 1).
+Proof. exact c18_node_range. Qed.
+Print Assumptions C18_node_range.
+
+Theorem C18_count_below : forall x, x < 2 ^ 62 -> count_below x = 2 ^ (level x + 1) - 2.
+Proof. exact count_below_spec. Qed.
+Print Assumptions C18_count_below.
+
+Theorem C18_next_left_ancestor : forall x, x < 2 ^ 62 -> next_left_ancestor x = sp_next_left_ancestor x.
+Proof. exact c18_next_left_ancestor. Qed.
+Print Assumptions C18_next_left_ancestor.
+
+Theorem C18_right_count : forall x, right_count x = popcount (sp_index x).
+Proof. exact right_count_spec. Qed.
+Print Assumptions C18_right_count.
+
+Theorem C18_post_order_offset : forall x, x < 2 ^ 62 -> post_order_offset_node x = sp_post_offset x.
+Proof. exact post_order_offset_spec. Qed.
+Print Assumptions C18_post_order_offset.
+
+Theorem C18_post_order_range : forall x, x < 2 ^ 62 ->
+  post_order_range x = (sp_post_offset x - (2 ^ (level x + 1) - 2), sp_post_offset x + 1).
+Proof. exact post_order_range_spec. Qed.
+Print Assumptions C18_post_order_range.
+
+Theorem C18_add_block_size : forall x n, n <= 10 ->
+  add_block_size x n = (if n <=? level x then Some (x / 2 ^ n) else None).
+Proof. exact c18_add_block_size. Qed.
+Print Assumptions C18_add_block_size.
+
+Theorem C18_subtract_add : forall y n, n <= 10 -> (y + 1) * 2 ^ n <= 2 ^ 63 ->
+  add_block_size (subtract_block_size y n) n = Some y /\
+  level (subtract_block_size y n) = level y + n /\
+  sp_index (subtract_block_size y n) = sp_index y.
+Proof. exact c18_subtract_add. Qed.
+Print Assumptions C18_subtract_add.
+
+Theorem C18_add_subtract : forall x y n, n <= 10 -> x < 2 ^ 62 ->
+  add_block_size x n = Some y -> subtract_block_size y n = x.
+Proof. exact c18_add_subtract. Qed.
+Print Assumptions C18_add_subtract.
+
+Theorem C18_post_order_enum : forall (h : nat) x, (h <= 60)%nat -> x < 2 ^ (N.of_nat h + 1) - 1 ->
+  nth_error (complete_post h 0) (N.to_nat (post_order_offset_node x)) = Some x.
+Proof. exact post_order_enum. Qed.
+Print Assumptions C18_post_order_enum.
+
+Theorem C18_restricted_parent : forall x len p, x < 2 ^ 62 -> restricted_parent x len = Some p ->
+  p < len /\ level x < level p /\ sp_node_start p <= x /\ x < sp_node_start p + 2 ^ (level p + 1) - 1.
+Proof. exact restricted_parent_sound. Qed.
+Print Assumptions C18_restricted_parent.
+
+Theorem C18_right_descendant : forall x len d, x < 2 ^ 62 -> right_descendant x len = Some d ->
+  d < len /\ level d < level x /\ x < d /\ d < sp_node_start x + 2 ^ (level x + 1) - 1.
+Proof. exact right_descendant_sound. Qed.
+Print Assumptions C18_right_descendant.
+
+Theorem C18_restricted_parent_none : forall x len, x < 2 ^ 62 -> restricted_parent x len = None ->
+  forall p, (level x < level p /\ level p <= 62 /\
+             sp_node_start p <= x < sp_node_start p + 2 ^ (level p + 1) - 1) -> len <= p.
+Proof. exact restricted_parent_none. Qed.
+Print Assumptions C18_restricted_parent_none.
